@@ -67,6 +67,10 @@ CLAIMS = {
  "C17": ("Lean theorems: the registry invariant RegOK (keys sorted, records keyed by their own assets, record = pair self-description, distinct pairs) is preserved by creation, by decimals re-registration for any number of pairs, and by every other operation; "
          "after a re-registration every record and pair containing the denom carries the new decimals in the denom's position, all else unchanged, nothing moved (defect D4 repaired). "
          "Correspondence + oracle: world family factory with up to 17 pairs.", "§6 C17, §7 D4", "Lean 4 proof (invariant by induction over the registry fold) + differential correspondence on cw-multi-test"),
+ "C20": ("Lean theorems: in any world where the pair is well-formed, a holder can withdraw any amount up to its balance whose entitlement is at least r_i/1e18 + 2 of each asset: the transaction succeeds (each step of the handler is shown to succeed), "
+         "with refunds ≥ 2; the supply bound it needs is cw20 conservation in inductive list-sum form, proved preserved by every operation. "
+         "Correspondence + oracle: world families inject withdrawals after arbitrary prefixes and the oracle demands success whenever the entitlement condition holds in the observed state.",
+         "§6 C20", "Lean 4 proof (liveness: every step of the withdrawal succeeds under an inductive invariant) + differential correspondence on cw-multi-test"),
  "C15": ("Lean theorems: soundness and completeness of assert_slippage_tolerance, >100% always rejected, no abort on positive 128-bit inputs. "
          "Correspondence: slippage family with deposits solved around both ratio limits.", "§6 C15", "Lean 4 proof + differential correspondence"),
 }
@@ -85,7 +89,7 @@ NOT_YET = {
  "C17_": "factory state machine model not built yet; planned",
  "C18_": "text model (N2) not built yet; planned",
  "C19_": "pagination model not built yet; planned",
- "C20": "liveness from the inductive invariant not built yet; planned",
+ "C20_": "liveness from the inductive invariant not built yet; planned",
 }
 
 def main():
